@@ -50,7 +50,7 @@ def gen_call(ctx: Ctx, P, for_mean=False):
         agg = ("sum",)
     elif a < 0.7 and m in (1, 2, 4, 8, 16):
         agg = ("mean",)
-    elif P.big:
+    elif P.big or P.casts:      # (a single-precision parameter: the cubic probe would leave its exact range)
         agg = ("const", [rng.choice([-2, -1, 1, 2, 3]) for _ in range(m)])     # the probe is cubic in J: not exact with *BIG
     else:
         agg = ("probe", [rng.choice([-2, -1, 1, 2, 3]) for _ in range(m)])
